@@ -245,6 +245,72 @@ type frame struct {
 	env      map[types.Object]owner
 	deferred []*ast.CallExpr
 	depth    int
+	lits     map[types.Object]*ast.FuncLit // closures bound once to a local variable (f := func() {...})
+}
+
+// litOf resolves the callee of a call to a function literal: the literal itself, or a local variable that is bound to
+// exactly one literal in this function.
+func (f *frame) litOf(fun ast.Expr) *ast.FuncLit {
+	switch x := fun.(type) {
+	case *ast.FuncLit:
+		return x
+	case *ast.ParenExpr:
+		return f.litOf(x.X)
+	case *ast.Ident:
+		if f.lits != nil {
+			if obj := f.objOf(x); obj != nil {
+				return f.lits[obj]
+			}
+		}
+	}
+	return nil
+}
+
+// bindLit: frame for the invocation of a closure: it shares the variables of the enclosing function (flow-insensitive
+// owners), has its own deferred calls, and its parameters take the owners of the arguments.
+func (f *frame) bindLit(fl *ast.FuncLit, args []ast.Expr) *frame {
+	nf := &frame{fname: f.fname, env: f.env, depth: f.depth + 1, lits: f.lits}
+	i := 0
+	changed := false
+	for _, p := range fl.Type.Params.List {
+		for _, n := range p.Names {
+			if i < len(args) {
+				if obj := info.Defs[n]; obj != nil {
+					o := f.owner(args[i])
+					if old, ok := nf.env[obj]; !ok || join(old, o) != old {
+						if ok {
+							o = join(old, o)
+						}
+						nf.env[obj] = o
+						changed = true
+					}
+				}
+			}
+			i++
+		}
+	}
+	if changed {
+		nf.solve(fl.Body)
+	}
+	return nf
+}
+
+func (f *frame) litRetOwner(fl *ast.FuncLit, args []ast.Expr, idx int) owner {
+	if f.depth > 6 {
+		return owner{k: oUnknown}
+	}
+	nf := f.bindLit(fl, args)
+	res := owner{}
+	ast.Inspect(fl.Body, func(n ast.Node) bool {
+		if x, ok := n.(*ast.FuncLit); ok && x != fl {
+			return false
+		}
+		if r, ok := n.(*ast.ReturnStmt); ok && idx < len(r.Results) {
+			res = join(res, nf.owner(r.Results[idx]))
+		}
+		return true
+	})
+	return res
 }
 
 type retKey struct {
@@ -365,6 +431,9 @@ func (f *frame) owner0(e ast.Expr) owner {
 }
 
 func (f *frame) callOwner(e *ast.CallExpr, idx int) owner {
+	if fl := f.litOf(e.Fun); fl != nil {
+		return f.litRetOwner(fl, e.Args, idx)
+	}
 	switch fn := e.Fun.(type) {
 	case *ast.Ident:
 		switch fn.Name {
@@ -498,6 +567,47 @@ func (f *frame) solve(body ast.Node) {
 		}
 		return false
 	}
+	if f.lits == nil {
+		f.lits = map[types.Object]*ast.FuncLit{}
+	}
+	bound := map[types.Object]int{}
+	ast.Inspect(body, func(n ast.Node) bool {
+		reg := func(l ast.Expr, r ast.Expr) {
+			id, ok := l.(*ast.Ident)
+			if !ok {
+				return
+			}
+			obj := f.objOf(id)
+			if obj == nil {
+				return
+			}
+			bound[obj]++
+			if fl, isLit := r.(*ast.FuncLit); isLit && bound[obj] == 1 {
+				f.lits[obj] = fl
+			} else {
+				delete(f.lits, obj)
+			}
+		}
+		switch s := n.(type) {
+		case *ast.AssignStmt:
+			if len(s.Lhs) == len(s.Rhs) {
+				for i := range s.Lhs {
+					reg(s.Lhs[i], s.Rhs[i])
+				}
+			} else {
+				for i := range s.Lhs {
+					reg(s.Lhs[i], nil)
+				}
+			}
+		case *ast.ValueSpec:
+			for i, id := range s.Names {
+				if i < len(s.Values) {
+					reg(id, s.Values[i])
+				}
+			}
+		}
+		return true
+	})
 	for iter := 0; iter < 8; iter++ {
 		changed := false
 		ast.Inspect(body, func(n ast.Node) bool {
@@ -916,7 +1026,10 @@ func (w *walker) expr(f *frame, e ast.Expr, write bool) {
 			}
 		}
 	case *ast.FuncLit:
-		w.block(f, e.Body.List)
+		// a closure that is neither invoked here, nor bound once to a local variable (then it is walked at its calls),
+		// nor handed to a ring method: it may run at any time, so its body is walked as if no lock of the enclosing
+		// function were held (its own lock operations are tracked; it must leave the lock set as it found it)
+		w.detached(f, e)
 	case *ast.SelectorExpr:
 		w.expr(f, e.X, false)
 		w.field(f, e, write)
@@ -931,7 +1044,36 @@ func (w *walker) expr(f *frame, e ast.Expr, write bool) {
 	}
 }
 
+// invokeLit walks the body of a closure at the point where it is invoked (immediately, through the local variable it is
+// bound to, or as a deferred call): with the caller's lock set, its own deferred calls running at its exits.
+func (w *walker) invokeLit(f *frame, fl *ast.FuncLit, args []ast.Expr, pos token.Pos) {
+	if f.depth > 6 {
+		w.unknown(f, pos, "closure call depth exceeded")
+		return
+	}
+	nf := f.bindLit(fl, args)
+	w.function(nf, fl.Body, pos)
+}
+
+func (w *walker) detached(f *frame, fl *ast.FuncLit) {
+	saved := w.held
+	w.held = nil
+	nf := f.bindLit(fl, nil)
+	w.function(nf, fl.Body, fl.Pos())
+	if len(w.held) != 0 {
+		w.unknown(f, fl.Pos(), "closure returns holding "+heldList(w.held))
+	}
+	w.held = saved
+}
+
 func (w *walker) call(f *frame, c *ast.CallExpr) {
+	if fl := f.litOf(c.Fun); fl != nil {
+		for _, a := range c.Args {
+			w.expr(f, a, false)
+		}
+		w.invokeLit(f, fl, c.Args, c.Pos())
+		return
+	}
 	if class, op, o, ok := w.lockOp(f, c); ok {
 		_ = class
 		_ = o
@@ -1007,6 +1149,12 @@ func (w *walker) call(f *frame, c *ast.CallExpr) {
 					w.unknown(f, c.Pos(), "ring method on a ring with unknown owner: "+exprString(fn))
 				}
 				for _, a := range c.Args {
+					if fl, isLit := a.(*ast.FuncLit); isLit && fn.Sel.Name == "Do" {
+						// Ring.Do calls the closure synchronously for every element (its parameter already carries the
+						// ring's owner, see solve)
+						w.function(&frame{fname: f.fname, env: f.env, depth: f.depth + 1, lits: f.lits}, fl.Body, fl.Pos())
+						continue
+					}
 					w.expr(f, a, false)
 				}
 				return
@@ -1088,6 +1236,8 @@ func (w *walker) runDeferred(f *frame) {
 		c := f.deferred[i]
 		if class, op, o, ok := w.lockOp(f, c); ok {
 			w.applyLock(f, c, class, op, o)
+		} else if fl := f.litOf(c.Fun); fl != nil {
+			w.invokeLit(f, fl, c.Args, c.Pos())
 		}
 	}
 }
@@ -1147,15 +1297,23 @@ func (w *walker) stmt(f *frame, s ast.Stmt) bool {
 			}
 			return false
 		}
-		if _, isLit := s.Call.Fun.(*ast.FuncLit); isLit {
-			w.unknown(f, s.Pos(), "deferred closure")
+		if f.litOf(s.Call.Fun) != nil {
+			for _, a := range s.Call.Args {
+				w.expr(f, a, false) // arguments are evaluated at the defer statement
+			}
+			f.deferred = append(f.deferred, s.Call) // the body runs at the exits of this function
 			return false
 		}
 		w.expr(f, s.Call, false)
 	case *ast.GoStmt:
 		w.unknown(f, s.Pos(), "goroutine started inside a handler")
 	case *ast.AssignStmt:
-		for _, r := range s.Rhs {
+		for i, r := range s.Rhs {
+			if fl, isLit := r.(*ast.FuncLit); isLit && len(s.Lhs) == len(s.Rhs) {
+				if id, isId := s.Lhs[i].(*ast.Ident); isId && f.lits != nil && f.objOf(id) != nil && f.lits[f.objOf(id)] == fl {
+					continue // walked where it is called
+				}
+			}
 			w.expr(f, r, false)
 		}
 		for i, l := range s.Lhs {
@@ -1306,41 +1464,108 @@ func hasBreak(b *ast.BlockStmt) bool {
 
 type handlerEntry struct{ constant, method string }
 
-func requestTypeMap() (entries []handlerEntry, problems []string) {
-	fd := funcs["requestWorker"]
-	if fd == nil {
-		return nil, []string{"requestWorker not found"}
+// isConstMap: map[protocol.StorageRequestConstant]T
+func isConstMap(t types.Type) (*types.Map, bool) {
+	if t == nil {
+		return nil, false
 	}
-	found := false
-	ast.Inspect(fd.Body, func(n ast.Node) bool {
-		vs, ok := n.(*ast.ValueSpec)
-		if !ok || len(vs.Names) != 1 || vs.Names[0].Name != "requestTypeMap" || len(vs.Values) != 1 {
+	m, ok := t.Underlying().(*types.Map)
+	if !ok {
+		return nil, false
+	}
+	return m, namedOf(m.Key()) == "protocol.StorageRequestConstant"
+}
+
+// mapWrites: positions where a map (or any variable) of the given static type / the given object is written
+func writesToConstMaps(pred func(types.Type) bool) []token.Pos {
+	var out []token.Pos
+	for _, f := range files {
+		ast.Inspect(f, func(n ast.Node) bool {
+			check := func(x ast.Expr, pos token.Pos) {
+				if tv, ok := info.Types[x]; ok && tv.Type != nil && pred(tv.Type) {
+					out = append(out, pos)
+				}
+			}
+			switch s := n.(type) {
+			case *ast.AssignStmt:
+				for _, l := range s.Lhs {
+					if ix, ok := l.(*ast.IndexExpr); ok {
+						check(ix.X, ix.Pos())
+					}
+				}
+			case *ast.IncDecStmt:
+				if ix, ok := s.X.(*ast.IndexExpr); ok {
+					check(ix.X, ix.Pos())
+				}
+			case *ast.CallExpr:
+				if id, ok := s.Fun.(*ast.Ident); ok && (id.Name == "delete" || id.Name == "clear") && len(s.Args) > 0 {
+					check(s.Args[0], s.Pos())
+				}
+			}
 			return true
-		}
-		cl, ok := vs.Values[0].(*ast.CompositeLit)
+		})
+	}
+	return out
+}
+
+// requestTypeMap finds the handler dispatch table: the one composite literal of a map type keyed by
+// protocol.StorageRequestConstant whose values are functions (wherever it is built: inside requestWorker or in a helper
+// that builds it once), checks that requestWorker indexes a map of that type with the request's type, and that no map of
+// that type is ever written after its construction.
+func requestTypeMap() (entries []handlerEntry, problems []string) {
+	isHandlerMap := func(t types.Type) bool {
+		m, ok := isConstMap(t)
 		if !ok {
-			problems = append(problems, "requestTypeMap is not a composite literal")
 			return false
 		}
-		found = true
-		for _, el := range cl.Elts {
-			kv, ok := el.(*ast.KeyValueExpr)
-			if !ok {
-				problems = append(problems, "requestTypeMap element without key")
-				continue
+		_, isFunc := m.Elem().Underlying().(*types.Signature)
+		return isFunc
+	}
+	var lits []*ast.CompositeLit
+	for _, f := range files {
+		ast.Inspect(f, func(n ast.Node) bool {
+			if cl, ok := n.(*ast.CompositeLit); ok {
+				if tv, ok := info.Types[cl]; ok && isHandlerMap(tv.Type) {
+					lits = append(lits, cl)
+				}
 			}
-			k := exprString(kv.Key)
-			v := exprString(kv.Value)
-			if !strings.HasPrefix(k, "protocol.") || !strings.HasPrefix(v, "module.") || funcs[strings.TrimPrefix(v, "module.")] == nil {
-				problems = append(problems, "requestTypeMap entry the walk cannot resolve: "+k+" -> "+v)
-				continue
-			}
-			entries = append(entries, handlerEntry{strings.TrimPrefix(k, "protocol."), strings.TrimPrefix(v, "module.")})
+			return true
+		})
+	}
+	if len(lits) != 1 {
+		return nil, []string{fmt.Sprintf("expected exactly one handler table (map literal StorageRequestConstant -> func), found %d", len(lits))}
+	}
+	for _, el := range lits[0].Elts {
+		kv, ok := el.(*ast.KeyValueExpr)
+		if !ok {
+			problems = append(problems, "handler table element without key")
+			continue
 		}
-		return false
-	})
-	if !found {
-		problems = append(problems, "requestTypeMap not found in requestWorker")
+		k := exprString(kv.Key)
+		v := exprString(kv.Value)
+		if !strings.HasPrefix(k, "protocol.") || !strings.HasPrefix(v, "module.") || funcs[strings.TrimPrefix(v, "module.")] == nil {
+			problems = append(problems, fmt.Sprintf("%s:%d handler table entry the walk cannot resolve: %s -> %s", storageFile, line(kv.Pos()), k, v))
+			continue
+		}
+		entries = append(entries, handlerEntry{strings.TrimPrefix(k, "protocol."), strings.TrimPrefix(v, "module.")})
+	}
+	// the workers dispatch through a map of that type indexed by the request type
+	used := false
+	if fd := funcs["requestWorker"]; fd != nil {
+		ast.Inspect(fd.Body, func(n ast.Node) bool {
+			if ix, ok := n.(*ast.IndexExpr); ok && strings.HasSuffix(exprString(ix.Index), ".RequestType") {
+				if tv, ok := info.Types[ix.X]; ok && isHandlerMap(tv.Type) {
+					used = true
+				}
+			}
+			return true
+		})
+	}
+	if !used {
+		problems = append(problems, "requestWorker does not dispatch through the handler table indexed by the request type")
+	}
+	for _, pos := range writesToConstMaps(isHandlerMap) {
+		problems = append(problems, fmt.Sprintf("%s:%d the handler table is written after its construction", storageFile, line(pos)))
 	}
 	return
 }
@@ -1380,50 +1605,325 @@ type route struct {
 	line           int
 }
 
+// substitution-based normal form of an index expression of mainLoop: local aliases (x := module.workers) are expanded,
+// calls of one-line package functions (func f(a, b) T { return e }) are inlined with their arguments
+func normExpr(e ast.Expr, alias map[string]string, depth int) string {
+	switch e := e.(type) {
+	case *ast.Ident:
+		if v, ok := alias[e.Name]; ok {
+			return v
+		}
+		return e.Name
+	case *ast.SelectorExpr:
+		return normExpr(e.X, alias, depth) + "." + e.Sel.Name
+	case *ast.BinaryExpr:
+		return normExpr(e.X, alias, depth) + e.Op.String() + normExpr(e.Y, alias, depth)
+	case *ast.ParenExpr:
+		return "(" + normExpr(e.X, alias, depth) + ")"
+	case *ast.BasicLit:
+		return e.Value
+	case *ast.IndexExpr:
+		return normExpr(e.X, alias, depth) + "[" + normExpr(e.Index, alias, depth) + "]"
+	case *ast.CallExpr:
+		if id, ok := e.Fun.(*ast.Ident); ok && depth < 4 {
+			if fd, ok := funcs[id.Name]; ok && fd.Recv == nil && len(fd.Body.List) == 1 {
+				if rs, ok := fd.Body.List[0].(*ast.ReturnStmt); ok && len(rs.Results) == 1 {
+					inner := map[string]string{}
+					i := 0
+					for _, fl := range fd.Type.Params.List {
+						for _, n := range fl.Names {
+							if i < len(e.Args) {
+								inner[n.Name] = normExpr(e.Args[i], alias, depth)
+							}
+							i++
+						}
+					}
+					if i == len(e.Args) {
+						return normExpr(rs.Results[0], inner, depth+1)
+					}
+				}
+			}
+		}
+		s := normExpr(e.Fun, alias, depth) + "("
+		for i, a := range e.Args {
+			if i > 0 {
+				s += ","
+			}
+			s += normExpr(a, alias, depth)
+		}
+		return s + ")"
+	}
+	return fmt.Sprintf("<%T>", e)
+}
+
+var identRef = func(s, name string) bool {
+	for i := 0; i+len(name) < len(s); i++ {
+		if s[i:i+len(name)] == name && s[i+len(name)] == '.' && (i == 0 || !(s[i-1] == '_' || s[i-1] == '.' || (s[i-1] >= 'a' && s[i-1] <= 'z') || (s[i-1] >= 'A' && s[i-1] <= 'Z') || (s[i-1] >= '0' && s[i-1] <= '9'))) {
+			return true
+		}
+	}
+	return false
+}
+
+// classifyIndex: how a worker index is computed
+func classifyIndex(idx, req string) string {
+	for _, g := range []string{req + ".Cluster+" + req + ".Group"} {
+		for _, n := range []string{"uint64(module.numWorkers)", "uint64(uint64(module.numWorkers))"} {
+			if idx == "int(xxhash.ChecksumString64("+g+")%"+n+")" {
+				return "RHashed"
+			}
+		}
+	}
+	if strings.Contains(idx, "rand.") && !strings.Contains(idx, "xxhash") && !identRef(idx, req) {
+		return "RAny"
+	}
+	return "RUnknown"
+}
+
+// routes reads the dispatch of mainLoop.  Supported shapes: a switch over <req>.RequestType whose clauses list the
+// constants, or a switch over T[<req>.RequestType] where T is a package-level map literal (constant -> class constant)
+// that is never written; in the chosen clause the request is sent to module.workers[idx], either directly or by
+// assigning module.workers[idx] to a local channel variable that receives the request after the switch.
 func routes() (rs []route, problems []string) {
 	fd := funcs["mainLoop"]
 	if fd == nil {
 		return nil, []string{"mainLoop not found"}
 	}
-	var sw *ast.SwitchStmt
+	// the loop over the request channel and its request variable
+	var loop *ast.RangeStmt
 	ast.Inspect(fd.Body, func(n ast.Node) bool {
-		if s, ok := n.(*ast.SwitchStmt); ok && sw == nil && s.Tag != nil && strings.HasSuffix(exprString(s.Tag), ".RequestType") {
-			sw = s
+		if r, ok := n.(*ast.RangeStmt); ok && loop == nil && strings.HasSuffix(exprString(r.X), "requestChannel") {
+			loop = r
 		}
 		return true
 	})
+	if loop == nil || loop.Key == nil {
+		return nil, []string{"mainLoop: loop over the request channel not found"}
+	}
+	req := exprString(loop.Key)
+	// local aliases defined once before the loop
+	alias := map[string]string{}
+	count := map[string]int{}
+	ast.Inspect(fd.Body, func(n ast.Node) bool {
+		if a, ok := n.(*ast.AssignStmt); ok {
+			for _, l := range a.Lhs {
+				if id, ok := l.(*ast.Ident); ok {
+					count[id.Name]++
+				}
+			}
+		}
+		return true
+	})
+	for _, st := range fd.Body.List {
+		if a, ok := st.(*ast.AssignStmt); ok && a.Tok == token.DEFINE && len(a.Lhs) == 1 && len(a.Rhs) == 1 {
+			if id, ok := a.Lhs[0].(*ast.Ident); ok && count[id.Name] == 1 {
+				alias[id.Name] = normExpr(a.Rhs[0], alias, 0)
+			}
+		}
+	}
+	var sw *ast.SwitchStmt
+	for _, st := range loop.Body.List {
+		if s, ok := st.(*ast.SwitchStmt); ok && s.Tag != nil && strings.Contains(exprString(s.Tag), req+".RequestType") {
+			if sw != nil {
+				return nil, []string{"mainLoop: more than one switch on the request type"}
+			}
+			sw = s
+		}
+	}
 	if sw == nil {
 		return nil, []string{"dispatch switch on RequestType not found in mainLoop"}
 	}
-	req := strings.TrimSuffix(exprString(sw.Tag), ".RequestType")
+	// constant -> the label the clauses are selected by
+	labelOf := map[string]string{}
+	tag := exprString(sw.Tag)
+	switch {
+	case tag == req+".RequestType":
+		for _, c := range protocolConstants() {
+			labelOf[c] = "protocol." + c
+		}
+	case strings.HasSuffix(tag, "["+req+".RequestType]"):
+		tbl := strings.TrimSuffix(tag, "["+req+".RequestType]")
+		var lit *ast.CompositeLit
+		var tblObj types.Object
+		for _, f := range files {
+			for _, d := range f.Decls {
+				gd, ok := d.(*ast.GenDecl)
+				if !ok || gd.Tok != token.VAR {
+					continue
+				}
+				for _, sp := range gd.Specs {
+					vs := sp.(*ast.ValueSpec)
+					for i, n := range vs.Names {
+						if n.Name == tbl && i < len(vs.Values) {
+							if cl, ok := vs.Values[i].(*ast.CompositeLit); ok {
+								lit = cl
+								tblObj = info.Defs[n]
+							}
+						}
+					}
+				}
+			}
+		}
+		if lit == nil {
+			return nil, []string{"mainLoop: routing table " + tbl + " is not a package-level map literal"}
+		}
+		if tv, ok := info.Types[lit]; !ok {
+			return nil, []string{"mainLoop: routing table " + tbl + " has no type"}
+		} else if _, ok := isConstMap(tv.Type); !ok {
+			return nil, []string{"mainLoop: routing table " + tbl + " is not keyed by StorageRequestConstant"}
+		}
+		// never written, never re-assigned
+		for _, f := range files {
+			ast.Inspect(f, func(n ast.Node) bool {
+				bad := func(x ast.Expr, pos token.Pos) {
+					for {
+						if ix, ok := x.(*ast.IndexExpr); ok {
+							x = ix.X
+							continue
+						}
+						break
+					}
+					if id, ok := x.(*ast.Ident); ok && info.Uses[id] == tblObj && tblObj != nil {
+						problems = append(problems, fmt.Sprintf("%s:%d the routing table %s is modified", storageFile, line(pos), tbl))
+					}
+				}
+				switch s := n.(type) {
+				case *ast.AssignStmt:
+					for _, l := range s.Lhs {
+						bad(l, l.Pos())
+					}
+				case *ast.IncDecStmt:
+					bad(s.X, s.Pos())
+				case *ast.CallExpr:
+					if id, ok := s.Fun.(*ast.Ident); ok && (id.Name == "delete" || id.Name == "clear") && len(s.Args) > 0 {
+						bad(s.Args[0], s.Pos())
+					}
+				case *ast.UnaryExpr:
+					if s.Op == token.AND {
+						bad(s.X, s.Pos())
+					}
+				}
+				return true
+			})
+		}
+		for _, el := range lit.Elts {
+			kv, ok := el.(*ast.KeyValueExpr)
+			if !ok || !strings.HasPrefix(exprString(kv.Key), "protocol.") {
+				problems = append(problems, fmt.Sprintf("%s:%d routing table entry the walk cannot read", storageFile, line(el.Pos())))
+				continue
+			}
+			if _, isId := kv.Value.(*ast.Ident); !isId {
+				problems = append(problems, fmt.Sprintf("%s:%d routing table value is not a named class", storageFile, line(el.Pos())))
+				continue
+			}
+			k := strings.TrimPrefix(exprString(kv.Key), "protocol.")
+			if _, dup := labelOf[k]; dup {
+				problems = append(problems, fmt.Sprintf("%s:%d routing table names %s twice", storageFile, line(el.Pos()), k))
+			}
+			labelOf[k] = exprString(kv.Value)
+		}
+	default:
+		return nil, []string{"mainLoop: switch tag the walk cannot read: " + tag}
+	}
+	// sends of the request in the loop body
+	type sendInfo struct {
+		s      *ast.SendStmt
+		clause *ast.CaseClause
+	}
+	var sends []sendInfo
+	for _, st := range loop.Body.List {
+		inSwitch := st == ast.Stmt(sw)
+		if inSwitch {
+			for _, c := range sw.Body.List {
+				cc := c.(*ast.CaseClause)
+				ast.Inspect(&ast.BlockStmt{List: cc.Body}, func(n ast.Node) bool {
+					if s, ok := n.(*ast.SendStmt); ok && exprString(s.Value) == req {
+						sends = append(sends, sendInfo{s, cc})
+					}
+					return true
+				})
+			}
+			continue
+		}
+		ast.Inspect(st, func(n ast.Node) bool {
+			if s, ok := n.(*ast.SendStmt); ok && exprString(s.Value) == req {
+				sends = append(sends, sendInfo{s, nil})
+			}
+			return true
+		})
+	}
+	// a local channel variable that receives the request after the switch
+	chanVar := ""
+	for _, si := range sends {
+		if si.clause == nil {
+			id, ok := si.s.Chan.(*ast.Ident)
+			if !ok || chanVar != "" {
+				return nil, append(problems, fmt.Sprintf("%s:%d mainLoop: send outside the dispatch switch the walk cannot read", storageFile, line(si.s.Pos())))
+			}
+			chanVar = id.Name
+		}
+	}
+	if chanVar != "" {
+		// assigned only inside the clauses of the switch
+		for _, st := range loop.Body.List {
+			if st == ast.Stmt(sw) {
+				continue
+			}
+			ast.Inspect(st, func(n ast.Node) bool {
+				if a, ok := n.(*ast.AssignStmt); ok {
+					for _, l := range a.Lhs {
+						if id, ok := l.(*ast.Ident); ok && id.Name == chanVar {
+							problems = append(problems, fmt.Sprintf("%s:%d mainLoop: %s is assigned outside the dispatch switch", storageFile, line(a.Pos()), chanVar))
+						}
+					}
+				}
+				return true
+			})
+		}
+	}
+	clauseKind := func(cc *ast.CaseClause) string {
+		var idx []ast.Expr
+		for _, si := range sends {
+			if si.clause == cc {
+				if ix, ok := si.s.Chan.(*ast.IndexExpr); ok && normExpr(ix.X, alias, 0) == "module.workers" {
+					idx = append(idx, ix.Index)
+				} else {
+					return "RUnknown"
+				}
+			}
+		}
+		if chanVar != "" {
+			ast.Inspect(&ast.BlockStmt{List: cc.Body}, func(n ast.Node) bool {
+				if a, ok := n.(*ast.AssignStmt); ok && len(a.Lhs) == 1 && len(a.Rhs) == 1 {
+					if id, ok := a.Lhs[0].(*ast.Ident); ok && id.Name == chanVar {
+						if ix, ok := a.Rhs[0].(*ast.IndexExpr); ok && normExpr(ix.X, alias, 0) == "module.workers" {
+							idx = append(idx, ix.Index)
+						} else {
+							idx = append(idx, nil)
+						}
+					}
+				}
+				return true
+			})
+		}
+		if len(idx) != 1 || idx[0] == nil {
+			return "RUnknown"
+		}
+		return classifyIndex(normExpr(idx[0], alias, 0), req)
+	}
 	for _, c := range sw.Body.List {
 		cc := c.(*ast.CaseClause)
 		if cc.List == nil {
 			continue
 		}
-		kind := "RUnknown"
-		var sends []*ast.SendStmt
-		ast.Inspect(&ast.BlockStmt{List: cc.Body}, func(n ast.Node) bool {
-			if s, ok := n.(*ast.SendStmt); ok {
-				sends = append(sends, s)
-			}
-			return true
-		})
-		if len(sends) == 1 && exprString(sends[0].Value) == req {
-			if ix, ok := sends[0].Chan.(*ast.IndexExpr); ok && exprString(ix.X) == "module.workers" {
-				idx := exprString(ix.Index)
-				hashed := "xxhash.ChecksumString64(" + req + ".Cluster+" + req + ".Group)%uint64(module.numWorkers)"
-				switch {
-				case idx == "int("+hashed+")":
-					kind = "RHashed"
-				case strings.Contains(idx, "rand.") && !strings.Contains(idx, "xxhash") && !strings.Contains(idx, req+"."):
-					kind = "RAny"
+		kind := clauseKind(cc)
+		for _, x := range cc.List {
+			lbl := exprString(x)
+			for _, k := range protocolConstants() {
+				if labelOf[k] == lbl {
+					rs = append(rs, route{k, kind, line(x.Pos())})
 				}
 			}
-		}
-		for _, x := range cc.List {
-			k := exprString(x)
-			rs = append(rs, route{strings.TrimPrefix(k, "protocol."), kind, line(x.Pos())})
 		}
 	}
 	return
